@@ -2498,7 +2498,7 @@ func (ex *explorer) doCall(st *State, in ssa.Instruction, c *ssa.CallCommon, val
 	// a bookkeeping helper that loops (a compare-and-swap loop raising a high-water mark): nothing but sync/atomic
 	// operations, message formatting and calls of a hook that is never installed - no event, and its loop is not a
 	// loop of the protocol its caller implements
-	if fn != nil && HasLoop(fn) && isBookkeepingHelper(fn, 0) {
+	if fn != nil && isBookkeepingHelper(fn, 0) {
 		bind(&Term{Op: "tuple"})
 		return false
 	}
